@@ -38,7 +38,7 @@ def _make(data, form):
     if form == "base":
         return EncodedArray(arr, BaseEncoding)
     if form == "ragged":
-        return EncodedRaggedArray(EncodedArray(np.concatenate([arr, arr[:1]]), BaseEncoding), [len(arr), 1])
+        return EncodedRaggedArray(EncodedArray(np.concatenate([arr, arr[:1]]), BaseEncoding), [len(arr), min(1, len(arr))])
     raise ValueError(form)
 
 
@@ -61,7 +61,7 @@ def _decoded(x, form, n):
             return ("row-wise decode differs", rows, want_rows)
     if form in ("list", "ragged"):
         lens = [int(l) for l in x.lengths.tolist()] if isinstance(x, EncodedRaggedArray) else None
-        if lens != [n, 1] or flat[n:] != flat[:1]:
+        if lens != [n, min(n, 1)] or flat[n:] != flat[:1]:
             return ("bad-shape", lens, flat)
         return flat[:n]
     return flat
